@@ -3,7 +3,8 @@ package main
 // C08 — a failed load or reload leaves nothing behind.
 //
 // Every case is a HISTORY of attempts (load = casket.Start, validate =
-// casket.ValidateAndExecuteDirectives(justValidate), reload = Instance.Restart, sigusr1 = a real SIGUSR1
+// casket.ValidateAndExecuteDirectives(justValidate), execute = the same with justValidate=false on an
+// instance made by the VerifNewInstance hook, reload = Instance.Restart, sigusr1 = a real SIGUSR1
 // through casket.TrapSignals and a registered Casketfile loader) and environment changes (htpasswd file
 // rewritten) that is executed IN-PROCESS in a fresh child process of the harness binary, on loopback
 // (127.0.0.N:0).  After every step the child records the process-global observables: result class and
@@ -1458,7 +1459,7 @@ func c08Gen(r *Rand, tier string) []interface{} {
 	}
 	nrand, maxLen := 60, 6
 	if tier == "thorough" {
-		nrand, maxLen = 900, 10
+		nrand, maxLen = 2200, 10
 	}
 	for k := 0; k < nrand; k++ {
 		ins = append(ins, c08Random(r, maxLen, k))
